@@ -171,6 +171,74 @@ def partial_projection_rule(cx, rep, rid, files=("print/printer.rs", "frontend/m
     rep.floor(rid, "projections of struct-like RuntypeKind variants in the printer", n, 3)
 
 
+def scope_stack_rule(cx, rep, rid):
+    """A Vec<(name, binding)> field that is pushed and popped is a scope stack (generic parameters, mapped-type key
+    variables): the same name may be bound twice, and the innermost binding is the visible one.  Every lookup in it must
+    therefore run from the top of the stack: `.iter().rev().find(..)`, `for .. in s.iter().rev()`, `rfind`, `rposition`.
+    A forward search returns the OUTER binding of a shadowed name and the instantiated type gets the wrong argument."""
+    F = cx.rs
+    # candidate fields: (owner adt, field) of type Vec<(String, ..)> with both push and pop calls somewhere
+    pushed, popped = set(), set()
+    uses = []   # (fn, iter-call node, chain of enclosing method names, is for-loop)
+    for g in sorted(F.hir):
+        f = F.fns.get(g)
+        if f is None:
+            continue
+        tree = F.hir[g]
+        parents = {}
+        for n in walk(tree["body"]):
+            for k_, v_ in n.items():
+                if isinstance(v_, dict) and "k" in v_:
+                    parents[id(v_)] = n
+                elif isinstance(v_, list):
+                    for x in v_:
+                        if isinstance(x, dict) and "k" in x:
+                            parents[id(x)] = n
+        for n in walk(tree["body"]):
+            if n["k"] != "MethodCall":
+                continue
+            r = n["recv"]
+            while r["k"] in ("AddrOf", "Unary"):
+                r = r["e"]
+            if r["k"] != "Field" or not re.match(r"^std::vec::Vec<\(std::string::String, ", r.get("ty") or ""):
+                continue
+            key = (r.get("adt"), r["name"])
+            if n["method"] == "push":
+                pushed.add(key)
+            elif n["method"] == "pop":
+                popped.add(key)
+            elif n["method"] in ("iter", "iter_mut", "into_iter"):
+                chain = []
+                cur = n
+                forloop = False
+                while id(cur) in parents:
+                    par = parents[id(cur)]
+                    if par["k"] == "MethodCall" and par["recv"] is cur:
+                        chain.append(par["method"])
+                        cur = par
+                        continue
+                    if par["k"] == "Call" and (par.get("callee") or "").endswith("IntoIterator::into_iter"):
+                        forloop = True
+                    break
+                uses.append((key, f, n, chain, forloop))
+    stacks = pushed & popped
+    rep.floor(rid, "scope stacks (Vec<(String, _)> fields with push and pop)", len(stacks), 1)
+    n_l = 0
+    for key, f, n, chain, forloop in uses:
+        if key not in stacks:
+            continue
+        order_sensitive = forloop or any(m in ("find", "find_map", "position", "next", "nth", "take", "skip_while", "take_while", "last", "rfind", "rposition", "next_back") for m in chain)
+        if not order_sensitive:
+            continue
+        n_l += 1
+        ok = (chain[:1] == ["rev"]) or any(m in ("rfind", "rposition", "next_back") for m in chain[:2]) and "rev" not in chain
+        rep.ob(rid, "%s.%s/%s" % ((key[0] or "?").rsplit("::", 1)[-1], key[1], f.id.rsplit("::", 1)[-1]), ok,
+               "%s searches the scope stack `%s` from the bottom (%s): a name bound twice (a generic instantiated inside another generic with the same parameter name) resolves to the OUTER binding" % (
+                   f.id, key[1], ".".join(["iter"] + chain) + (" in a for loop" if forloop else "")),
+               "%s:%s" % (f.file, n["line"]), sample={"stack": key[1], "lookup": ".".join(["iter"] + chain), "fn": f.id})
+    rep.floor(rid, "lookups in scope stacks", n_l, 1)
+
+
 def run(cx, rep):
     F = cx.rs
     fam = ts_common.Family(cx)
@@ -401,6 +469,9 @@ def run(cx, rep):
     # ---------------------------------------------------------------- C01.7
     rep.rule("C01.7", "the printer takes IR nodes apart without dropping a field")
     partial_projection_rule(cx, rep, "C01.7")
+    # ---------------------------------------------------------------- C01.8
+    rep.rule("C01.8", "scope stacks (generic parameters, mapped-type variables) are searched innermost-first")
+    scope_stack_rule(cx, rep, "C01.8")
     # ---------------------------------------------------------------- C01.4
     rep.rule("C01.4", "every runtime class implements the whole Runtype interface")
     rep.floor("C01.4", "interface methods", len(fam.iface_methods), 8)
